@@ -106,7 +106,9 @@ def cases(rng, tier):
                 yield {"kind": "pair", "first": a, "second": b2, "first_kwargs": kw}
     for i, (a, b2) in enumerate(pairs):
         c = {"kind": "pair", "first": a, "second": b2} if i % 4 else {"kind": "pair", "first": a, "second": b2, "home_fs": "other"}
-        if i % 3 == 1:
+        if i % 5 == 2:
+            c["first_fails"] = True
+        if i % 3 == 1 and not c.get("first_fails"):
             c["first_kwargs"] = rng.choice([{"unpack_dataset_columns": True}, {"download_even_if_available": True, "n_retries": 0},
                                             {"download_if_missing": True, "n_retries": 2}, {"n_retries": 1, "delay": 0.0}])
         if i % 6 == 1:
@@ -149,7 +151,12 @@ def load_pair(c):
         home = scratch_dir("twv-c19p-", other_fs=c.get("home_fs") == "other")
         paths = {}
 
+        down = {"on": False}
+
         def fake_retrieve(url, path):
+            if down["on"]:
+                from urllib.error import URLError
+                raise URLError("network is down")
             paths[path] = url
             with open(path, "w") as f:
                 f.write(fake_payload(url))
@@ -172,6 +179,19 @@ def load_pair(c):
                     fetch(c["second"])                 # the second dataset is in the cache already
                     # the first load passes explicit options; they are the FIRST load's business only
                     fetch(c["first"], **c["first_kwargs"])
+                elif c.get("first_fails"):
+                    # the network is down for the whole first load (every retry fails; the error reaches the caller, no
+                    # cache entry is left), then it is back: the second load must not care
+                    down["on"] = True
+                    import time as _time
+                    real_sleep, _time.sleep = _time.sleep, (lambda s_: None)
+                    try:
+                        load_dataset(c["first"])
+                    except Exception:  # noqa: expected
+                        pass
+                    finally:
+                        _time.sleep = real_sleep
+                        down["on"] = False
                 else:
                     load_dataset(c["first"])
                 before = len(paths)
